@@ -45,8 +45,10 @@ import (
 // other on one fresh instance (pooled buffers and the source id are reused). conc=2 (scheduled):
 // the case ends with `<nsched> <req>…`; the n requests run in n goroutines but only one at a time:
 // every body Read and every controller.In is a park point, step k of the schedule resumes request
-// <req> until its next park point (or its end); when the schedule is used up the requests are
-// finished one after the other in index order. GOMAXPROCS is 1 for the duration of such a case, so
+// <req> until its next park point (or its end); <req> = n+i runs request i to its end, <req> = 2n
+// runs every request that has started to its end, round-robin (a wave of requests completes before
+// the next one starts, all on the one plugin instance); when the schedule is used up the requests
+// are finished one after the other in index order. GOMAXPROCS is 1 for the duration of such a case, so
 // that sync.Pool behaves as on one P (what request A puts back is what request B gets): request A
 // parked in the middle of its body while B opens, reads and finishes is then a fixed history, not
 // a matter of timing.
@@ -397,18 +399,37 @@ func c11RunScheduled(n int, sched []int, logs []*c11ReqLog, serve func(i int, fi
 			serve(i, nil, nil)
 		}(i)
 	}
+	started := make([]bool, n)
 	turn := func(i int) {
 		if done[i] {
 			return
 		}
+		started[i] = true
 		resume[i] <- struct{}{}
 		nt := <-back
 		if nt.done {
 			done[nt.req] = true
 		}
 	}
-	for _, i := range sched {
-		turn(i)
+	for _, v := range sched {
+		switch {
+		case v < n: // one step of request v
+			turn(v)
+		case v < 2*n: // request v-n to its end
+			for !done[v-n] {
+				turn(v - n)
+			}
+		default: // every request that has started, round-robin, to its end (a wave completes)
+			for open := true; open; {
+				open = false
+				for i := 0; i < n; i++ {
+					if started[i] && !done[i] {
+						turn(i)
+						open = true
+					}
+				}
+			}
+		}
 	}
 	for i := 0; i < n; i++ {
 		for !done[i] {
@@ -466,7 +487,7 @@ func execC11(t *hx.Toks) string {
 		}
 		for j := 0; j < k; j++ {
 			r := t.Int()
-			if t.Err != nil || r < 0 || r >= n {
+			if t.Err != nil || r < 0 || r > 2*n {
 				return "bad-case"
 			}
 			sched = append(sched, r)
@@ -876,6 +897,30 @@ func c11SchedReq(rng *hx.Rng, alpha []byte, forceGz bool) c11Req {
 	return c11Plain(c11RandChunks(rng, body, []int{0, 2, 3}[rng.Intn(3)], maxc))
 }
 
+// c11WaveReq: a request of a wave history: 3-12 short lines (several In calls, so that the In calls
+// of overlapping requests interleave), plain or gzip, a few reads.
+func c11WaveReq(rng *hx.Rng, alpha []byte) c11Req {
+	var body []byte
+	nl := rng.Range(3, 12)
+	for i := 0; i < nl; i++ {
+		body = append(body, rng.Bytes(rng.Range(0, 20), alpha)...)
+		body = append(body, '\n')
+	}
+	if rng.Chance(1, 3) {
+		body = append(body, rng.Bytes(rng.Range(1, 8), alpha)...)
+	}
+	maxc := []int{8, 64, 4096}[rng.Intn(3)]
+	if rng.Chance(1, 3) {
+		z := c11Compress(body, stdgzip.BestSpeed)
+		var trans []c11Rd
+		for _, c := range c11RandChunks(rng, z, 0, maxc) {
+			trans = append(trans, c11Rd{'d', c})
+		}
+		return c11Gz(trans)
+	}
+	return c11Plain(c11RandChunks(rng, body, []int{0, 2}[rng.Intn(2)], maxc))
+}
+
 // c11ParkPoints: how many park points (body reads + In calls) a request has at most, for sizing
 // schedules; an estimate is enough (a finished request's turns are skipped).
 func c11ParkPoints(q c11Req) int {
@@ -933,9 +978,9 @@ func c11Schedule(rng *hx.Rng, reqs []c11Req) []int {
 }
 
 func genC11(w *bufio.Writer, rng *hx.Rng, tier string) {
-	maxLen, nrand, nbig, nseq, nconc, nsched := 6, 2000, 150, 300, 150, 400
+	maxLen, nrand, nbig, nseq, nconc, nsched, nwave := 6, 2000, 150, 300, 150, 400, 400
 	if tier == "thorough" {
-		maxLen, nrand, nbig, nseq, nconc, nsched = 8, 40000, 3000, 6000, 3000, 8000
+		maxLen, nrand, nbig, nseq, nconc, nsched, nwave = 8, 40000, 3000, 6000, 3000, 8000, 8000
 	}
 	// 1. exhaustive: every body over {a, \n, \r} up to maxLen x every chunking into non-empty
 	// reads; the two endpoints alternate
@@ -1032,5 +1077,48 @@ func genC11(w *bufio.Writer, rng *hx.Rng, tier string) {
 			reqs[j] = c11SchedReq(rng, c11Alphabets[j], j < ngz)
 		}
 		c11LineMode(w, rng.Chance(1, 4), 2, reqs, c11Schedule(rng, reqs))
+	}
+	// 7. histories of several waves on one plugin instance: 2-4 waves of 2-4 overlapping requests;
+	// a wave completes (its source ids, buffers and gzip readers go back to the free list / pools)
+	// before the next starts, or - mixed - one request of the wave is left open while the next
+	// wave starts and ends. The free list holds several ids from the second wave on.
+	for i := 0; i < nwave; i++ {
+		nw := rng.Range(2, 4)
+		var reqs []c11Req
+		var waves [][]int
+		for wv := 0; wv < nw; wv++ {
+			k := rng.Range(2, 4)
+			var idxs []int
+			for j := 0; j < k; j++ {
+				idxs = append(idxs, len(reqs))
+				reqs = append(reqs, c11WaveReq(rng, c11Alphabets[len(reqs)%len(c11Alphabets)]))
+			}
+			waves = append(waves, idxs)
+		}
+		n := len(reqs)
+		var sched []int
+		for _, idxs := range waves {
+			// overlap: every request of the wave takes its first steps before any of them ends
+			steps := rng.Range(2, 10)
+			for st := 0; st < steps; st++ {
+				for _, r := range idxs {
+					if rng.Chance(5, 6) {
+						sched = append(sched, r)
+					}
+				}
+			}
+			if rng.Chance(1, 3) && len(idxs) > 1 {
+				// mixed: all but one to their end, the straggler stays open into the next wave
+				keep := idxs[rng.Intn(len(idxs))]
+				for _, r := range idxs {
+					if r != keep {
+						sched = append(sched, n+r)
+					}
+				}
+			} else {
+				sched = append(sched, 2*n)
+			}
+		}
+		c11LineMode(w, rng.Chance(1, 4), 2, reqs, sched)
 	}
 }
